@@ -17,7 +17,7 @@ from sa.core.paths import enumerate_paths, guards, parent_map
 from sa.core.pyfacts import Repo, arg, call_name, const_str, kwarg, src, walk_no_nested
 from sa.core.templates import parts, shape
 from sa.core import jinja_facts as J
-from sa.props._tr import defs_of, visitor_methods
+from sa.props._tr import defs_of, resolve_name, visitor_methods
 from sa.props.c18 import check_substitution, string_sinks
 
 EXPLANATION = (
@@ -206,6 +206,23 @@ def check(col: Collector, tier: str):
     emb = bool(vdef) and "str(unique_var_index)" in src(vdef[0]) and "name" in src(vdef[0])
     col.add("C02.R5", un.short, "counter-incremented-on-every-call-and-embedded", ok and glob and emb,
             "unique_name must append the process-wide counter to the base name and increment it on every path", un.loc)
+    # base name and counter must not run together: "x1"+"1" and "x"+"11" are the same identifier (two columns x1 and x, eleven apart)
+    ps_ = parts(un.node, vdef[0]) if vdef else []
+    idx_name = [i for i, (k, v) in enumerate(ps_) if k == "hole" and src(v) == un.node.args.args[0].arg]
+    idx_ctr = [i for i, (k, v) in enumerate(ps_) if k == "hole" and "unique_var_index" in src(v)]
+    sep_ok = False
+    if len(idx_name) == 1 and len(idx_ctr) == 1 and idx_ctr[0] > idx_name[0]:
+        between = ps_[idx_name[0] + 1:idx_ctr[0]]
+        for k, v in between:
+            if k == "lit" and v and not v[-1].isdigit():
+                sep_ok = True
+            if k == "hole":
+                d = resolve_name(un.node, v)
+                if isinstance(d, ast.IfExp) and "isdigit()" in src(d.test) and (const_str(d.body) or "") and not (const_str(d.body) or "0")[-1].isdigit():
+                    sep_ok = True
+    col.add("C02.R5", un.short, "name-and-counter-cannot-run-together", sep_ok,
+            f"the generated name is {shape(ps_)}: a base name ending in a digit needs a separator before the counter, otherwise two different "
+            "(name, counter) pairs give one C++ identifier and it is declared twice", un.loc)
     # no unique_name() at module/class level or in a default argument
     from sa.props._tr import check_unique_names_per_use
     check_unique_names_per_use(col, "C02.R5", repo)
